@@ -1497,12 +1497,11 @@ class SpaceManager(SharedSpaceOperations):
 
     def new_ref(self, space, name, value, refmode):
 
-        other = self._find_name_in_subs(space, name)
-        if other is not None:
-            if not isinstance(other, ReferenceImpl):
-                raise ValueError("Cannot create reference '%s'" % name)
-            elif other not in self.model.global_refs.values():
-                raise ValueError("Cannot create reference '%s'" % name)
+        for subspace in self._get_subs(space, skip_self=False):
+            if name in subspace.namespace:
+                other = subspace._namespace.fresh[name]
+                if not isinstance(other, ReferenceImpl):
+                    raise ValueError("Cannot create reference '%s'" % name)
 
         self._check_subs_relrefs(space, name, value, refmode)
         result = space.on_create_ref(name, value, is_derived=False,
@@ -1511,7 +1510,10 @@ class SpaceManager(SharedSpaceOperations):
         for subspace in self._get_subs(space):
             is_relative = False
             if name in subspace.own_refs:
-                break
+                subref = subspace.own_refs[name]
+                if subref.is_derived():     # Derived from another base as well
+                    subref.on_inherit(self, subref.defined_bases)
+                continue            # or overridden in the sub space
             if isinstance(value, Interface) and value._is_valid():
                 if refmode == "auto" or refmode == "relative":
                     is_relative, value = self.get_relative_interface(
